@@ -78,17 +78,22 @@ IndexableTags(e) == {<<e.tags[i][1], e.tags[i][2]>> :
 
 TagHit(e, name, vals) == TagVals(e, name) \cap vals # {}
 
-Matches(id, e, f, strict) ==
+\* deleg = FALSE gives the matching of a relay that does not consult NIP-26 delegation tags
+\* (used only to classify a recorded known finding; the properties use Matches)
+MatchesG(id, e, f, strict, deleg) ==
     /\ (Has(f.ids)     => id \in Val(f.ids))
-    /\ (Has(f.authors) => (e.pk \in Val(f.authors) \/ Delegators(e) \cap Val(f.authors) # {}))
+    /\ (Has(f.authors) => (e.pk \in Val(f.authors) \/ (deleg /\ Delegators(e) \cap Val(f.authors) # {})))
     /\ (Has(f.kinds)   => e.kind \in Val(f.kinds))
     /\ (\A tv \in f.tags : TagHit(e, tv[1], tv[2]))
     /\ (Has(f.since)   => IF strict THEN e.ts > Val(f.since) ELSE e.ts >= Val(f.since))
     /\ (Has(f.until)   => IF strict THEN e.ts < Val(f.until) ELSE e.ts <= Val(f.until))
+Matches(id, e, f, strict) == MatchesG(id, e, f, strict, TRUE)
 
 \* a filter the relay must refuse to evaluate (NIP-01 gives it no meaning):
 \* an empty list for ids/authors/kinds or an empty value set for a tag
-Degenerate(f) == \/ (Has(f.ids) /\ Val(f.ids) = {})
+Unconstrained(f) == ~Has(f.ids) /\ ~Has(f.authors) /\ ~Has(f.kinds) /\ f.tags = {} /\ ~Has(f.since) /\ ~Has(f.until)
+Degenerate(f) == \/ Unconstrained(f)      \* this relay deliberately refuses full scans ("no range scans allowed")
+                 \/ (Has(f.ids) /\ Val(f.ids) = {})
                  \/ (Has(f.authors) /\ Val(f.authors) = {})
                  \/ (Has(f.kinds) /\ Val(f.kinds) = {})
                  \/ (\E tv \in f.tags : tv[2] = {})
